@@ -426,3 +426,11 @@ Definition final_ok (p : Q) (cmps : list (list level)) (thr : option Q) (f : fin
      | Some t, Some (a, op, t') => nx_eqb a (gen_bf_expr p cols) && cmpop_eqb op OpGe && Qclose (1 # 1000000000000) t' t
      | _, _ => false
      end.
+
+(* ------------------------------------------------------------------------------------ *)
+(* waterfall_chart.py: record_to_waterfall_data builds, in this order, a bar for the prior
+   (bayes_factor = prior odds), then per comparison a bar with the Bayes factor of the level that fired and,
+   if the comparison has TF adjustments, a bar with the bf_tf_adj column; each bar also carries
+   log2(bayes_factor); the final bar carries match_weight and 2^match_weight. *)
+Definition waterfall_records (p : Q) (cs : list cmp_cols) : list xq := prior_odds p :: all_terms cs.
+Definition waterfall_final (p : Q) (cs : list cmp_cols) : xq := score_of_cols p cs.
